@@ -102,6 +102,24 @@ _WIDE_EXTRA = [
     "- 1. a",
     "1. - a",
     "-\t",
+    # empty list items with every marker kind, multi-digit numbers
+    "1.",
+    "10.",
+    "+",
+    "*",
+    "2)",
+    # trailing spaces / hard breaks inside containers, indented fence, setext variants
+    "> a  ",
+    "- a  ",
+    "   ```",
+    "  # a",
+    "#",
+    "==",
+    " ===",
+    "<pre>",
+    "</pre>",
+    "[l]: <u>",
+    "\\",
 ]
 # characters that are not plain CommonMark input: non-ASCII letters, pymarkdown's in-band
 # marker characters, a pragma line.  Not used for the CommonMark comparison (C03).
@@ -138,6 +156,51 @@ SIGMA_INL = [
     "&amp;",
     "\n",
     "<b>",
+]
+# a wider atom set, explored one step less deep than SIGMA_INL
+SIGMA_INL_WIDE = SIGMA_INL + [
+    "\t",
+    "` ",
+    " `",
+    '<a t=">">',
+    "<!-- > -->",
+    '"',
+    "'",
+    "#",
+    ":",
+    "-",
+    "1.",
+    "~",
+    "|",
+    "<http://a>",
+    "&#35;",
+    "[a]",
+    "é",
+    "b",
+]
+# lines of a paragraph that open / close inline constructs across line boundaries (multi-line inline
+# elements), plus the line shapes line-oriented rules look at
+SIGMA_MLI = [
+    "",
+    "a",
+    "a `",
+    "` a",
+    "a ` b",
+    " ` x",
+    "`",
+    "a <b",
+    "c> d",
+    "a [b",
+    "c](/u) d",
+    "a *b",
+    "c* d",
+    "#a",
+    "   y",
+    "a  ",
+    "a\\",
+    "[l]: /u",
+    "> a",
+    "- a",
 ]
 INL_CONTEXTS = ["{X}", "[a]: /u\n\n{X}", "# {X}", "- {X}", "> {X}"]
 
@@ -396,13 +459,23 @@ def inline_space(k, contexts=(0, 1)):
     return UnionSpace(f"I({k})", parts)
 
 
+def inline_wide_space(k, contexts, commonmark_only=False):
+    atoms = [a for a in SIGMA_INL_WIDE if not (commonmark_only and a == "é")]
+    return [
+        ProductSpace(f"Iw({k})ctx{c}", atoms, k, joiner="", template=INL_CONTEXTS[c]) for c in contexts
+    ]
+
+
 def parser_space(tier, commonmark_only=False):
     """The shared space of the parser-level properties C01-C05."""
     wide = "widecm" if commonmark_only else "wide"
     if tier == "thorough":
-        parts = [block_space("core", 5), block_space(wide, 3)]
-        parts += inline_space(5, (0, 1, 2)).parts
+        parts = [block_space("core", 5), block_space(wide, 3), ProductSpace("B(mli,4)", SIGMA_MLI, 4)]
+        parts += inline_space(5, (0,)).parts
+        parts += inline_wide_space(4, (0, 2), commonmark_only)
+        parts += inline_wide_space(3, (1, 3, 4), commonmark_only)
     else:
-        parts = [block_space("core", 4), block_space(wide, 2)]
-        parts += inline_space(4, (0, 1)).parts
+        parts = [block_space("core", 4), block_space(wide, 2), ProductSpace("B(mli,3)", SIGMA_MLI, 3)]
+        parts += inline_space(4, (0,)).parts
+        parts += inline_wide_space(3, (0, 1, 2, 3, 4), commonmark_only)
     return UnionSpace(f"parser-{tier}", parts)
